@@ -23,6 +23,17 @@ def gen_cases(seed, n, depth):
         cases.append((forms, ATOMS))
     return cases
 
+def confusable_cases(seed, n):
+    """one program, two paths with the same leaves and operators but different bracketing (path caching by representation)"""
+    r = random.Random(seed)
+    out = []
+    for _ in range(n):
+        forms = gen.confusable_dforms(r, ATOMS)
+        if r.random() < 0.5:
+            forms.reverse()
+        out.append((forms, ATOMS))
+    return out
+
 def corpus_cases():
     A = lambda x: ("a", x)
     return [
@@ -46,7 +57,7 @@ def _corr_chunk(args):
             d = [{"layer": "L4", "text": text, "what": "exception in the implementation: {}: {}".format(tl.classify_exc(e), str(e)[:200])}]
             st = {"pairs": 0, "equations_evaluated": 0, "horizons": 0}
         for k in st:
-            tot[k] += st[k]
+            tot[k] = tot.get(k, 0) + st[k]
         tot["programs"] += 1
         for x in d:
             x["forms"] = forms
@@ -62,7 +73,7 @@ def correspondence(ctx):
     dis = []
     for st, d in par.pmap(_corr_chunk, work, ctx.jobs):
         for k in st:
-            tot[k] += st[k]
+            tot[k] = tot.get(k, 0) + st[k]
         dis += d
     ops = {}
     def count(f):
@@ -84,7 +95,7 @@ def _search_chunk(args):
 def search(ctx, deep):
     n = (100 if ctx.tier == "quick" else 1200) * (3 if deep else 1)
     H = 3
-    cases = corpus_cases() + gen_cases(ctx.seed * 79 + 7, n, 2 if ctx.tier == "quick" else 3)
+    cases = corpus_cases() + confusable_cases(ctx.seed * 61 + 3, n // 2) + gen_cases(ctx.seed * 79 + 7, n, 2 if ctx.tier == "quick" else 3)
     hinted = [(d["forms"], ATOMS) for d in getattr(ctx, "hints", []) if "forms" in d][:50]
     cases = hinted + cases
     work = [(ctx.seed + j, c, H) for j, c in enumerate(par.chunks(cases, ctx.jobs * 2))]
